@@ -116,6 +116,24 @@ func RandInit(r *rand.Rand, table, op int) *InitSpec {
 	is := &InitSpec{R: RandState(r)}
 	is.Dev = DevDesc{Kind: "hash", Seed: r.Intn(1000), Len: 65536}
 	is.IO = IODesc{Kind: "hash", Seed: r.Intn(1000)}
+	switch r.Intn(8) {
+	case 0: // no port device attached
+		is.IO = IODesc{Kind: "nil"}
+	case 1: // the bundled array device, short ones too
+		is.IO = IODesc{Kind: "dumb", Len: []int{0, 1, 2, 128, 255, 256}[r.Intn(6)]}
+		for k := 0; k < 3; k++ {
+			is.IOCells = append(is.IOCells, [2]int{r.Intn(256), r.Intn(256)})
+		}
+		is.IOCells = dedupe(is.IOCells)
+	}
+	switch r.Intn(8) { // which notification handlers the host installed
+	case 0:
+		is.NoHN = true
+	case 1:
+		is.NoHI = true
+	case 2:
+		is.NoHN, is.NoHI = true, true
+	}
 	is.Pend = []int{}
 	s := is.R
 	pc := s[21]
